@@ -570,6 +570,7 @@ func (p *ServiceProcessor) ProcessClientStreamRequest(req *http.Request, path st
 							log.Error(err)
 							return
 						}
+						verifAt("stream.forwarderSend", outChan)
 						outChan <- buf
 					} else {
 						panic("no such channel index")
